@@ -12,6 +12,6 @@ CONSTANTS
   DSeqs = {1, 11, 111, 1111}
   GSeqs = {1, 11, 111, 1111}
   OSeqs = {1, 11, 111, 1111}
-  MaxGroupsD = 8
+  MaxGroupsD = 10
 INIT ExportInit
 NEXT ExportNext
